@@ -176,6 +176,16 @@ def divisor_zero_everywhere(h, envs):
     return False
 
 
+def undefined_everywhere(h, envs):
+    """Under some admissible reading the expression evaluates without error on no environment of
+    the grid: it has no defined value to preserve, so a raise while rewriting it is not judged."""
+    for r in readings_for(h):
+        f = E.compile_expr(h, True, r)
+        if not any(E.run(f, env)[0] == 'ok' for env in envs):
+            return True
+    return False
+
+
 def full_grid(names_num, names_bool, num_values=(0, 1, -1, 2, 0.5), limit=256):
     """all valuations of flat numeric/boolean fields (small-scope terms)"""
     spaces = [num_values] * len(names_num) + [(True, False)] * len(names_bool)
